@@ -3,11 +3,13 @@
 //! verification hooks on when they are there, so that runner code using a hook stays inert until
 //! the hook has been committed to the repository.
 //!   cfg(des_timer_ids): ModuleRef::verif_timer_entry_ids exists (fixes/hook_timer_ids.diff)
+//!   cfg(des_own_counts): ModuleRef::verif_own_probe exists (fixes/hook_own_counts.diff)
 use std::fs;
 use std::path::PathBuf;
 
 fn main() {
     println!("cargo:rustc-check-cfg=cfg(des_timer_ids)");
+    println!("cargo:rustc-check-cfg=cfg(des_own_counts)");
     let dir = PathBuf::from(std::env::var("CARGO_MANIFEST_DIR").unwrap());
     let manifest = fs::read_to_string(dir.join("Cargo.toml")).unwrap_or_default();
     println!("cargo:rerun-if-changed=Cargo.toml");
@@ -24,6 +26,9 @@ fn main() {
         println!("cargo:rerun-if-changed={}", refs.display());
         if fs::read_to_string(&refs).map(|s| s.contains("fn verif_timer_entry_ids")).unwrap_or(false) {
             println!("cargo:rustc-cfg=des_timer_ids");
+        }
+        if fs::read_to_string(&refs).map(|s| s.contains("fn verif_own_probe")).unwrap_or(false) {
+            println!("cargo:rustc-cfg=des_own_counts");
         }
     }
 }
